@@ -13,7 +13,7 @@ from vf.vtime import run_virtual
 class MemECUTransport:
     """Duck-typed BaseTransport whose peer is a UDSServer instance behind UDSServerTransport.handle_request."""
 
-    def __init__(self, server: Any, wire: list[tuple[int, bytes, bytes | None]], budget: int, after_reply: Any = None) -> None:
+    def __init__(self, server: Any, wire: list[tuple[int, bytes, bytes | None]], budget: int, after_reply: Any = None, mute: Any = None) -> None:
         from gallia.services.uds.server import UDSServerTransport
         from gallia.transports import TargetURI
 
@@ -26,12 +26,18 @@ class MemECUTransport:
         self.wire = wire
         self.budget = budget
         self.after_reply = after_reply
+        self.mute = mute
+        self.latency: float | None = None  # when set, a write suspends (the request is "on the wire") before the ECU sees it
 
     async def write(self, data: bytes, timeout: float | None = None, tags: list[str] | None = None) -> int:
         if len(self.wire) >= self.budget:
             raise RuntimeError("verif: request budget exhausted (scan does not terminate)")
+        if self.latency is not None:
+            await asyncio.sleep(self.latency)
         session = self.server.state.session
         reply, _ = await self.st.handle_request(bytes(data))
+        if self.mute is not None and reply is not None and self.mute(bytes(data)):
+            reply = None  # the ECU processed the request but stays silent
         self.wire.append((session, bytes(data), reply))
         if self.after_reply is not None:
             self.after_reply(self.server, bytes(data), reply)  # ECU-side effect after the reply left (e.g. fallback to the default session)
@@ -95,14 +101,14 @@ class ResultTap(logging.Handler):
 
 
 def run_scanner(scanner_cls: Any, config: Any, server: Any, budget: int = 200000, with_db_stub: bool = True, max_virtual: float = 5e6,
-                after_reply: Any = None) -> dict[str, Any]:
+                after_reply: Any = None, mute: Any = None) -> dict[str, Any]:
     wire: list[tuple[int, bytes, bytes | None]] = []
     box: dict[str, Any] = {}
     tap = ResultTap()
 
     async def go() -> None:
         await server.setup()
-        tr = MemECUTransport(server, wire, budget, after_reply)
+        tr = MemECUTransport(server, wire, budget, after_reply, mute)
 
         class Loader:
             @classmethod
